@@ -4,7 +4,7 @@
 //! Bounded by representation size (<= 2 elements per operand, capacity 6): complete for these sizes.
 use core::cmp::Ordering::*;
 
-use lattices::collections::{ArrayMap, ArraySet, OptionMap, OptionSet, SingletonMap, SingletonSet};
+use lattices::collections::{ArrayMap, ArraySet, OptionMap, OptionSet, SingletonMap, SingletonSet, VecMap, VecSet};
 use lattices::map_union::MapUnion;
 use lattices::set_union::SetUnion;
 use lattices::{IsBot, IsTop, LatticeFrom, Max, Merge};
@@ -87,6 +87,20 @@ where
 #[kani::proof] #[kani::unwind(8)] pub(crate) fn set_cmp_tiny_singleton() { set_cmp_contract(sym_tiny(), SingletonSet::<u8>(kani::any())) }
 #[kani::proof] #[kani::unwind(8)] pub(crate) fn set_cmp_option_singleton() { set_cmp_contract(OptionSet::<u8>(if kani::any() { Some(kani::any()) } else { None }), SingletonSet::<u8>(kani::any())) }
 
+/// the crate's Vec-backed set (`VecSet`) as merged-in / compared value: a duplicate-free Vec of 0..2 elements (one harness per length)
+fn sym_vecset<const N: usize>() -> VecSet<u8> {
+    let it: [u8; N] = kani::any();
+    if N == 2 { kani::assume(it[0] != it[1]); }
+    let mut v = Vec::new();
+    let mut i = 0;
+    while i < N { v.push(it[i]); i += 1; }
+    VecSet(v)
+}
+#[kani::proof] #[kani::unwind(8)] pub(crate) fn set_merge_vecset2() { set_merge_contract(sym_vecset::<2>()) }
+#[kani::proof] #[kani::unwind(8)] pub(crate) fn set_cmp_vecset2_tiny() { set_cmp_contract(sym_vecset::<2>(), sym_tiny()) }
+#[kani::proof] #[kani::unwind(8)] pub(crate) fn set_cmp_array_vecset1() { set_cmp_contract(sym_array2(), sym_vecset::<1>()) }
+#[kani::proof] #[kani::unwind(8)] pub(crate) fn set_cmp_vecset0_option() { set_cmp_contract(sym_vecset::<0>(), OptionSet::<u8>(if kani::any() { Some(kani::any()) } else { None })) }
+
 /// C03: is_bot iff empty, never top, default is bottom; C04: lattice_from keeps the elements
 #[kani::proof] #[kani::unwind(8)]
 pub(crate) fn set_bot_top_from() {
@@ -160,6 +174,16 @@ fn map_merge_contract<Other: IntoIterator<Item = (u8, V)> + Clone>(other: Other)
 #[kani::proof] #[kani::unwind(8)] pub(crate) fn map_merge_array2() { map_merge_contract(sym_amap2()) }
 #[kani::proof] #[kani::unwind(8)] pub(crate) fn map_merge_option() { map_merge_contract(OptionMap::<u8, V>(if kani::any() { Some((kani::any(), val())) } else { None })) }
 #[kani::proof] #[kani::unwind(8)] pub(crate) fn map_merge_singleton() { map_merge_contract(SingletonMap::<u8, V>(kani::any(), val())) }
+
+/// the crate's Vec-backed map (`VecMap`) as merged-in value: parallel key / value Vecs of one entry (duplicate-free by construction)
+fn sym_vecmap1() -> VecMap<u8, V> {
+    let mut keys = Vec::new();
+    let mut vals = Vec::new();
+    keys.push(kani::any::<u8>());
+    vals.push(val());
+    VecMap { keys, vals }
+}
+#[kani::proof] #[kani::unwind(8)] pub(crate) fn map_merge_vecmap1() { map_merge_contract(sym_vecmap1()) }
 
 fn sym_tmap1() -> TinyMap<V> {
     let mut m = TinyMap::<V>::default();
